@@ -65,6 +65,57 @@ def record_and_validate(profile, tier, seed, n, shards):
     return out
 
 
+def mcops(tier):
+    """MCOps: exhaustive small-scope enumeration of operator calls by TLC (laws + CASE lines); cached by spec hash"""
+    key = "mcops|%s|%s" % (C.spec_hash(["MCOps", "Ops", "Sexp", "BigInt", "Prim"]), tier)
+    cpath = C.cache_path("mc", key)
+    if os.path.exists(cpath):
+        return json.load(open(cpath))
+    res = C.run_tlc("MCOps", workers=min(8, C.NCPU), env={"TIER": tier}, timeout=5400, xmx="8g")
+    if res.invariant_violated:
+        raise C.ToolError("Ops.tla violates its own design-level laws (MCOps):\n" + res.out[-3000:])
+    C.tlc_ok_or_raise(res, "MCOps")
+    mc = {"cases": res.tagged("CASE"), "generated": res.generated, "distinct": res.distinct}
+    json.dump(mc, open(cpath, "w"))
+    return mc
+
+
+def replay_mcops(out, prop, tier):
+    mc = mcops(tier)
+    out.states += mc["distinct"]
+    out.transitions += mc["generated"]
+    hb = C.build_harness("default", ["ops"])["ops"]
+    work = os.path.join(C.WORK, "ops")
+    os.makedirs(work, exist_ok=True)
+    cases = os.path.join(work, "mcops-%d.ndjson" % os.getpid())
+    with open(cases, "w") as f:
+        for c in mc["cases"]:
+            f.write(json.dumps(c) + "\n")
+    mm = os.path.join(work, "mcops-mm-%d.ndjson" % os.getpid())
+    C.run([hb, "replay", "--in", cases, "--out", mm], timeout=1800)
+    lines = [json.loads(l) for l in open(mm)]
+    os.remove(cases)
+    os.remove(mm)
+    if not lines or lines[-1].get("done") != len(mc["cases"]):
+        raise C.ToolError("ops replay of MCOps cases did not complete")
+    out.traces += len(mc["cases"])
+    out.extra["mcops_cases"] = len(mc["cases"])
+    out.sample({"mcops_case": mc["cases"][len(mc["cases"]) // 2]}, cap=6)
+    for m in lines[:-1]:
+        c, got = m["case"], m["got"]
+        e = c["exp"]
+        desc = "enumerated call: op=%s flags=%s max=%s args=%s expected=%s observed=%s" % (
+            c["op"], c["flags"], C.le_n(c["max"]), json.dumps(c["args"])[:200], json.dumps(e)[:200], json.dumps(got)[:200])
+        both_ok = e.get("st") == "ok" and got.get("ok") is True
+        budget = "CostExceeded" in (e.get("kind"), got.get("kind"))
+        if prop == "C10" and not (both_ok or budget):
+            out.drift.append("outcome (not a cost clause): " + desc[:300])
+            continue
+        v = C.Violation(prop, desc, {"mismatch": m})
+        v.signature = "%s:mcops:%s" % (prop, C.sha256_str(json.dumps([c["op"], c["args"], c["flags"], c["max"]], sort_keys=True))[:12])
+        out.violations.append(v)
+
+
 def _is_unknown_call(m):
     op = m["op"]
     if len(op) != 1:
@@ -130,6 +181,9 @@ def check(prop, tier, seed):
                 out.violations.append(v)
             else:
                 out.drift.append("%s (not a clause of %s): %s" % (k, prop, desc[:300]))
+    if prop == "C10":
+        replay_mcops(out, prop, tier)
+        total_lines += out.extra.get("mcops_cases", 0)
     # C09: the published rule vs the code's wrapping product (finding F4) is decided in MCUnknown (design level) and by
     # the dedicated corner events of the `unknown` profile: TraceOps uses the code's rule (OpUnknown), so the corner is
     # reported by comparing with the published rule here.
